@@ -9,6 +9,7 @@ mod astops;
 mod engine;
 mod findings;
 mod gen;
+mod isolate;
 mod props;
 mod refmatch;
 mod refrules;
@@ -40,6 +41,13 @@ fn main() {
         let g = wax::Glob::new(&args[1]).unwrap();
         for p in &args[2..] {
             println!("{:?} -> {}", p, g.is_match(p.as_str()));
+        }
+        return;
+    }
+    if args[0] == "worker" {
+        match args.get(1).map(|s| s.as_str()) {
+            Some("c05") => props::c05::worker_main(),
+            other => eprintln!("unknown worker kind {:?}", other),
         }
         return;
     }
